@@ -870,6 +870,63 @@ func extractMisc() {
 		emit("/-- internal/core pipeIDAllocator.Get: the scan loop -/\n")
 		emit("def allocShape : List String := %s\n", leanStrList(shape))
 	}
+	// … and who writes the allocator's counter (an id that has been released must not come back at once: raw protocols
+	// route replies by pipe id) — every assignment to p.next or p.next++ in a method of pipeIDAllocator
+	{
+		p := loadPkg("internal/core")
+		writers := []string{}
+		for _, fn := range []string{"Get", "Free"} {
+			fd := p.fn("pipeIDAllocator", fn)
+			if fd == nil {
+				unrec("internal/core:pipeIDAllocator."+fn, "function not found")
+				continue
+			}
+			ast.Inspect(fd, func(x ast.Node) bool {
+				switch s := x.(type) {
+				case *ast.AssignStmt:
+					for _, l := range s.Lhs {
+						if exprString(l) == "p.next" {
+							writers = append(writers, fn+": p.next"+s.Tok.String()+exprString(s.Rhs[0]))
+						}
+					}
+				case *ast.IncDecStmt:
+					if exprString(s.X) == "p.next" {
+						writers = append(writers, fn+": p.next"+s.Tok.String())
+					}
+				}
+				return true
+			})
+		}
+		emit("/-- internal/core pipeIDAllocator: every write of the counter -/\n")
+		emit("def allocCounterWrites : List String := %s\n", leanStrList(writers))
+	}
+	// which Send paths take a private copy before they change a message they were given (Message.MakeUnique)
+	{
+		sites := []string{}
+		for _, pk := range []string{"protocol/xbus", "protocol/xpair1", "protocol/sub", "protocol/surveyor"} {
+			p := loadPkg(pk)
+			for _, fd := range p.allFuncs() {
+				if fd.Body == nil {
+					continue
+				}
+				name := fd.Name.Name
+				if r := recvTypeName(fd); r != "" {
+					name = r + "." + name
+				}
+				ast.Inspect(fd.Body, func(x ast.Node) bool {
+					if c, ok := x.(*ast.CallExpr); ok {
+						if se, ok := c.Fun.(*ast.SelectorExpr); ok && se.Sel.Name == "MakeUnique" {
+							sites = append(sites, pk+":"+name)
+						}
+					}
+					return true
+				})
+			}
+		}
+		sort.Strings(sites)
+		emit("/-- where a protocol makes a message its own before changing it -/\n")
+		emit("def makeUniqueSites : List String := %s\n", leanStrList(sites))
+	}
 	// dialer back-off: jitter factors, growth and cap conditions, what the timers are armed with
 	{
 		p := loadPkg("internal/core")
